@@ -151,6 +151,37 @@ func decodePropTable(c *Ctx, pr *PropertyRun, prop string) {
 		r.Unresolved("the DecodeProp table has fewer than 10 rows")
 	}
 	r.RequireRole("decision-table")
+	decodePropOptionalRule(c, pr, prop, fn)
+}
+
+// decodePropOptionalRule: DecodeProp stops at the first value it cannot
+// deliver. A caller that asks for several optional properties in one call and
+// tolerates the error (not found) therefore never reads the properties named
+// after the missing one: an object with a tag but no modification time comes
+// back without its tag.
+func decodePropOptionalRule(c *Ctx, pr *PropertyRun, prop string, decodeProp *ssa.Function) {
+	p := c.P
+	r := NewRule(prop, prop+".decode-prop-optional", "a DecodeProp call whose error is tolerated (the property is optional) asks for one property only: with several, the first missing one hides the rest (E4)")
+	pr.Rules = append(pr.Rules, r)
+	for _, fn := range p.ModFns {
+		if !inLib(fn) || len(fn.Blocks) == 0 {
+			continue
+		}
+		eachCall(fn, func(site ssa.CallInstruction) {
+			call, ok := site.(*ssa.Call)
+			if !ok || call.Common().StaticCallee() != decodeProp || len(call.Common().Args) < 2 {
+				return
+			}
+			r.Role("decode-prop-call")
+			n := len(variadicElems(call.Common().Args[1]))
+			ok = n <= 1 || !errToleratedAnywhere(call)
+			r.Ob(ok)
+			if !ok {
+				r.Violation("optional-group|"+fnKey(fn), p.instrPos(call), fmt.Sprintf("%s asks DecodeProp for %d properties in one call and goes on when it reports an error: DecodeProp stops at the first property that is missing, so the properties named after it are never read although the response carries them", fnKey(fn), n), nil)
+			}
+		})
+	}
+	r.RequireRole("decode-prop-call")
 }
 
 // decodeRequestTable: internal.DecodeXMLRequest refuses a request only for a
